@@ -97,6 +97,17 @@ Cl_MeasTwin  == (E.ev = "MeasTwin") =>
                   /\ SeqSame(E.a.t1, E.b.t1, Lit("300.0")) /\ SeqSame(E.a.t2, E.b.t2, Lit("300.0"))
                   /\ Len(E.a.p1) = Len(E.b.p1) /\ \A j \in 1..Len(E.a.p1) : EqR(E.a.p1[j], E.b.p1[j], E.a.p1[j])
                   /\ Len(E.a.p2) = Len(E.b.p2) /\ \A j \in 1..Len(E.a.p2) : EqR(E.a.p2[j], E.b.p2[j], E.a.p2[j])
+\* the extraction itself against its specification (Extract.tla): one measurement per supplied point, curve by curve and point by
+\* point in the caller's order, (mass fraction, curve temperature, that component's permeance) - reference semantics (DRIFT)
+Ex == INSTANCE Extract WITH Add <- FAdd, Sub <- FSub, Mul <- FMul, Div <- FDiv, Dec <- Lit, Dev <- "none"
+MeasIs(xs, ts, ps, want) == /\ Len(xs) = Len(want) /\ Len(ts) = Len(want) /\ Len(ps) = Len(want)
+                            /\ \A j \in 1..Len(want) : /\ EqR(xs[j], want[j].x, Lit("1.0")) /\ ts[j] = want[j].t
+                                                       /\ EqR(ps[j], want[j].p, want[j].p)
+Ref_ExtractIsSpec == (E.ev = "MeasTwin") =>
+                       /\ MeasIs(E.a.x1, E.a.t1, E.a.p1, Ex!OfSet(E.seta, 1, E.M1, E.M2))
+                       /\ MeasIs(E.a.x2, E.a.t2, E.a.p2, Ex!OfSet(E.seta, 2, E.M1, E.M2))
+                       /\ MeasIs(E.b.x1, E.b.t1, E.b.p1, Ex!OfSet(E.setb, 1, E.M1, E.M2))
+                       /\ MeasIs(E.b.x2, E.b.t2, E.b.p2, Ex!OfSet(E.setb, 2, E.M1, E.M2))
 Ref_CurveOutcome == (E.ev = "CurveTwin") => E.same_exc
 Ref_FnOutcome == (E.ev = "FnTwin" /\ ~D3_Excuses) => /\ E.gamma.same_exc /\ E.pp.same_exc /\ E.J.same_exc /\ E.Jm.same_exc
                                       /\ E.y.same_exc /\ E.sf.same_exc /\ E.curve.same_exc /\ E.msel.same_exc
